@@ -4,7 +4,8 @@ import re
 from vpk_jobdir import replay
 
 KILLFUNCS = ["aio_start", "aio_run"]
-KINDS = {"one": dict(tags=[1], deps={}), "chain2": dict(tags=[1, 2], deps={1: [0]}), "indep2": dict(tags=[1, 2], deps={})}
+KINDS = {"one": dict(tags=[1], deps={}), "chain2": dict(tags=[1, 2], deps={1: [0]}), "indep2": dict(tags=[1, 2], deps={}),
+         "tok2": dict(tags=[1, 2], deps={})}     # tok2: two independent jobs sharing a counter token of total 1
 
 
 # ------------------------------------------------------------------ scenario builders
@@ -71,6 +72,47 @@ def sc_restart(ident, kind, kill, latch, sig, second_kill=None):
         script.append(dict(when={"phase": ["S0", 1, "submitted"]}, do={"touch": "latch.all"}))
     return dict(id=ident, kind=kind, tags=tags, timeout=40, files=files, runs=runs, script=script,
                 meta=dict(family="restart", kind=kind, kill=kill, latch=latch, sig=sig, second_kill=second_kill))
+
+
+def sc_frozen_orphan(ident, n_spawn, sig="KILL", wait=2.5):
+    """C11: the scheduler dies right after Popen (n_spawn-th executed line of aio_start/aio_run: the process exists,
+    no pid file names it) and the job process is frozen (SIGSTOP) before it could do anything.  The experiment is run
+    again: it finds nothing, launches a second process, whose body begins.  Only then is the orphan thawed; it must
+    queue behind the running body and, when it gets the lock, find the marker and not run the body."""
+    runs = [dict(sid="S0", slot=0, run=0, xpname="x", kill=dict(n=n_spawn, sig=sig, funcs=KILLFUNCS, freeze_child=True)),
+            dict(sid="S0", slot=0, run=1, xpname="x")]
+    script = [dict(when={"t": 0}, do={"start": ["S0", 0]}),
+              dict(when={"dead": ["S0", 0]}, do={"start": ["S0", 1]}),
+              dict(when={"all": [{"log": r"^begin 1 "}, {"phase": ["S0", 1, "submitted"]}]},
+                   do={"signal_log": [r"FROZEN (\d+)", "CONT"]})]
+    script.append(dict(when={"after": [2, wait]}, do={"touch": "latch.all"}))
+    script.append(dict(when={"t": 25}, do={"signal_log": [r"FROZEN (\d+)", "CONT"]}, optional=True))
+    script.append(dict(when={"t": 27}, do={"touch": "latch.all"}, optional=True))
+    return dict(id=ident, kind="one", tags=[1], timeout=45, files={}, runs=runs, script=script,
+                meta=dict(family="restart", kind="one", kill={"line": n_spawn}, latch="late", sig=sig, second_kill=None,
+                          frozen_orphan=True))
+
+
+def sc_token_restart(ident, sig, phase="running:1", latch="late"):
+    """C11 with a token: two independent jobs share a counter token of total 1; the scheduler is killed while the
+    first of them runs (it holds the token); the experiment is run again"""
+    runs = [dict(sid="S0", slot=0, run=0, xpname="x"), dict(sid="S0", slot=0, run=1, xpname="x")]
+    script = [dict(when={"t": 0}, do={"start": ["S0", 0]})]
+    if phase == "running:1":
+        cond = {"log": r"^begin \d+ "}
+    else:
+        cond = {"phase": ["S0", 0, phase]}
+    script.append(dict(when=cond, do={"kill": ["S0", 0, sig]}))
+    script.append(dict(when={"after": [1, 6.0]}, do={"kill": ["S0", 0, "KILL"]}, optional=True))
+    if latch == "early":
+        script.append(dict(when={"dead": ["S0", 0]}, do={"touch": "latch.all"}))
+        script.append(dict(when={"after": [3, 1.0]}, do={"start": ["S0", 1]}))
+    else:
+        script.append(dict(when={"dead": ["S0", 0]}, do={"start": ["S0", 1]}))
+        script.append(dict(when={"phase": ["S0", 1, "submitted"]}, do={"write": ["noop", ""]}))
+        script.append(dict(when={"after": [4, 1.0]}, do={"touch": "latch.all"}))
+    return dict(id=ident, kind="tok2", tags=[1, 2], timeout=45, files={}, runs=runs, script=script,
+                meta=dict(family="restart", kind="tok2", kill={"phase": phase}, latch=latch, sig=sig, second_kill=None, token=True))
 
 
 def sc_compete(ident, nsched, delays, hold, fail_first, kill=None, latch_at=None, barrier=True):
@@ -246,6 +288,9 @@ def build_case(sc, out, markers, budget=150000):
     if w is None:
         if why["reason"].startswith("search budget"):
             return None, "search budget exhausted"
+        if sc["kind"] == "tok2":
+            # the model has no token: a retry of aio_start after a failed token acquisition is not expressible
+            return None, "token scenario not explained by the token-free model"
         w = replay.naive_witness(exact, cos)
     runs = [sum(1 for r in body_rows(rows, t) if r["kind"] == "begin") for t in tags]
     case = dict(deps=deps, init=init, w=w, nexact=len(exact), done=final["done"], failed=final["failed"], pid=final["pid"],
